@@ -1,5 +1,5 @@
 // Witness inputs for C10 (run on the real crate; a BOUNDED stand-in, not a proof): every single-bit flip and every single-byte
-// replacement by nil (0xc0) - in the thorough tier every single-byte replacement - of one small serialized engine that holds every kind of rule.  deserialize must return Ok or Err without
+// replacement by nil (0xc0), by the empty array (0x90), the empty map (0x80) or the empty string (0xa0) - in the thorough tier every single-byte replacement - of one small serialized engine that holds every kind of rule.  deserialize must return Ok or Err without
 // panicking; after Err the engine answers as before; after Ok it must answer queries and serialize again without panicking.
 // msgpack decoding and the shape invariants of decoded data are outside every contract here (trusted base of C10).
 use adblock::lists::ParseOptions;
@@ -49,6 +49,8 @@ fn c10_single_byte_corruptions_fail_cleanly() {
         // quick tier: the 8 single-bit flips and nil; thorough tier (VF_TIER=thorough, release build): every other byte value
         let mut variants: Vec<u8> = if std::env::var("VF_TIER").as_deref() == Ok("thorough") { (0..=255u8).collect() } else { (0..8).map(|b| good[pos] ^ (1u8 << b)).collect() };
         variants.push(0xc0);
+        // msgpack's empty array, empty map and empty string: an absent optional list becomes a present, empty one
+        variants.extend([0x90u8, 0x80, 0xa0]);
         for v in variants {
             if v == good[pos] { continue; }
             let mut buf = good.clone();
